@@ -84,6 +84,28 @@ impl RegexMatcherBuilder {
         Ok(RegexMatcher { config, regex, fast_line_regex, non_matching_bytes })
     }
 
+    /// Verification hook (feature `verif-hooks` only): describe what
+    /// `build_many` compiles for the given patterns under the current
+    /// configuration. Returns the final HIR (after word/whole-line wrapping,
+    /// case folding and line terminator stripping) and, when the inner
+    /// literal optimization is active, the literals whose alternation is used
+    /// to find candidate lines. Both are otherwise only visible in trace logs.
+    #[cfg(feature = "verif-hooks")]
+    pub fn verif_describe<P: AsRef<str>>(
+        &self,
+        patterns: &[P],
+    ) -> Result<(regex_syntax::hir::Hir, Option<Vec<Vec<u8>>>), Error> {
+        let mut chir = self.config.build_many(patterns)?;
+        if chir.config().whole_line {
+            chir = chir.into_whole_line();
+        } else if chir.config().word {
+            chir = chir.into_word();
+        }
+        let regex = chir.to_regex()?;
+        let lits = InnerLiterals::new(&chir, &regex).verif_literals();
+        Ok((chir.hir().clone(), lits))
+    }
+
     /// Build a new matcher from a plain alternation of literals.
     ///
     /// Depending on the configuration set by the builder, this may be able to
